@@ -65,7 +65,8 @@ def class_source(c, fpath, dpath):
     if c.get('secrets') is not None:
         paths = [dpath[str(i)] for i in c['secrets']]
         meta.append('secrets_dir = %r' % ((paths[0] if len(paths) == 1 and c.get('single_as_str') else tuple(paths)),))
-    f2v = {f['name']: f['explicit'] for f in c['fields'] if f.get('explicit') is not None and f.get('via') == 'meta'}
+    f2v = {f['name']: (tuple(f['explicit']) if isinstance(f['explicit'], list) and c.get('single_as_str') else f['explicit'])
+           for f in c['fields'] if f.get('explicit') is not None and f.get('via') == 'meta'}
     if f2v:
         meta.append('field_to_env_var = %r' % f2v)
     if meta:
@@ -120,7 +121,7 @@ def handler(p):
         base_ns = {'EnvWizard': EnvWizard, 'env_field': env_field, 'json_field': json_field,
                    'LetterCasePriority': LetterCasePriority, 'field': dataclasses.field,
                    'datetime': datetime.datetime, 'Optional': typing.Optional, 'List': typing.List,
-                   'Dict': typing.Dict, '__name__': 'c18_case'}
+                   'Dict': typing.Dict, 'dict': dict, 'list': list, '__name__': 'c18_case'}
         for o in p['ops']:
             kind = o['op']
             if kind == 'set':
